@@ -123,6 +123,11 @@ def run(prop, tier, seed, known):
             if (ev['T-Precision reduced'], ev['T-Recall reduced'], ev['T-Measure reduced']) != red or \
                     (ev['T-Precision full'], ev['T-Recall full'], ev['T-Measure full']) != full:
                 fails.append('hierarchy.evaluate(transitive=%s): reduced/full entries are not tmeasure(transitive=False/True)' % transitive)
+            # both hierarchies start at 0 and share their end: the alignment done by evaluate() changes nothing, so the L entries are lmeasure
+            lm = tuple(float(x) for x in Hm.lmeasure(ra, rl, ea, el, frame_size=fs))
+            if any(abs(a - b) > 1e-12 for a, b in zip((ev['L-Precision'], ev['L-Recall'], ev['L-Measure']), lm)):
+                fails.append('hierarchy.evaluate: L entries %s are not lmeasure on the same (already aligned) annotations %s (ref labels %s, est labels %s)'
+                             % ((ev['L-Precision'], ev['L-Recall'], ev['L-Measure']), lm, rl, el))
             # C12: cutting a segment into two consecutive pieces with the same label changes no L-measure
             lv = rng.randrange(len(rh))
             j = rng.randrange(len(rh[lv]))
